@@ -277,6 +277,12 @@ def run(ctx):
                 "symmetrisations / windows; thresholding: integer data × quantiles k/8 / values / "
                 "types / defaults; distinct = distinct canonical request; non-trivial = both series "
                 "have >= 3 events (ES) / >= 1 event (ECA) / data not constant (thresholding)")
+    ctx.assumptions = [
+        "event times / time stamps strictly increasing; event matrices binary",
+        "correspondence inputs are dyadic rationals (decisions exact in float64); float results "
+        "compared as canonical small rationals under tolerance 1e-9 (ES, squared) / 1e-6 (ECA, float32)",
+        "the division by sqrt((lx-2)(ly-2)) is outside the model (counts and squared norm are modelled)",
+    ]
     ctx.proofs()
     ES = EventSeries
 
